@@ -31,7 +31,7 @@ func init() {
 	register(&CheckDef{
 		ID:    "C11",
 		Title: "Block/chunk framing round-trips every record at every offset",
-		Reach: []string{"done", "multi-chunk", "padded-tail"},
+		Reach: []string{"done", "multi-chunk", "padded-tail", "both-io-compared"},
 		Jobs: func(tier string) []JobSpec {
 			var js []JobSpec
 			add := func(name string, b int, params map[string]int64) {
@@ -42,7 +42,14 @@ func init() {
 				add("B32-std-2rec", 32, p("n", 2, "maxlen", 34, "io", 0))
 				add("B32-mmap-1rec", 32, p("n", 1, "maxlen", 70, "io", 1))
 				add("B32-std-batch2", 32, p("n", 2, "maxlen", 34, "io", 0, "batch", 1))
+				js = append(js, JobSpec{Name: "B32-both-io-2rec", Harness: "datafile", Func: "verifHarnessC11BothIO", Params: p("n", 2, "maxlen", 34), Scale: scaleDF(32), ConcCap: 256})
+				// mmap granule scaled to 48 so that one record crosses one or two remap boundaries
+				js = append(js, JobSpec{Name: "B32-mmap48-1rec", Harness: "datafile", Func: "verifHarnessC11Scaled", Params: p("n", 1, "maxlen", 100, "io", 1),
+					Scale: map[string]string{"datafile/log_record.go:blockSize": "32", "fio/mmap.go:blockSize": "48"}, ConcCap: 256})
 			} else {
+				js = append(js, JobSpec{Name: "B32-both-io-2rec", Harness: "datafile", Func: "verifHarnessC11BothIO", Params: p("n", 2, "maxlen", 70), Scale: scaleDF(32), ConcCap: 256})
+				js = append(js, JobSpec{Name: "B32-mmap48-2rec", Harness: "datafile", Func: "verifHarnessC11Scaled", Params: p("n", 2, "maxlen", 60, "io", 1),
+					Scale: map[string]string{"datafile/log_record.go:blockSize": "32", "fio/mmap.go:blockSize": "48"}, ConcCap: 256})
 				add("B32-std-1rec", 32, p("n", 1, "maxlen", 100, "io", 0))
 				add("B32-std-2rec", 32, p("n", 2, "maxlen", 70, "io", 0))
 				add("B32-std-3rec", 32, p("n", 3, "maxlen", 34, "io", 0))
